@@ -45,24 +45,39 @@ case("constructor_payload_type", "a tuple where the constructor carries a number
      prog([], [red(con(50, 1, ('tup', [L(1), L(2)])))], [T50]))
 case("constructor_extra_payload", "a payload for a constructor that carries none: rejected by both",
      prog([], [red(con(50, 0, L(1)))], [T50]))
-case("T8_literal_pattern_on_sum", "a literal pattern against a sum value: accepted by the real checker, the arm is never taken (reference: stuck E_PAT)",
-     prog([], [match(con(50, 0), (ml(0), L(1)), (MW, L(2)))], [T50]), finding="T8")
-case("T6_match_arms_of_different_types", "arms of different types: the real checker drops the unification error (reference: stuck E_NOTNUM)",
-     prog([], [B('add', match(NOW, (ml(0), L(1)), (MW, ('tup', [L(2), L(3)]))), L(1))]), finding="T6")
-case("T7_match_on_number_not_exhaustive", "a match on a number without `_`: accepted by the real checker; VM runs the last arm, WASM plays 0 (reference: stuck E_NOMATCH)",
-     prog([], [match(NOW, (ml(0), L(10)), (ml(1), L(20)))]), finding="T7")
-case("T8_binder_for_constructor_without_payload", "A(q) for a constructor without payload: accepted by the real checker; VM compile panic, WASM yields no output word",
-     prog([], [match(con(50, 0), (mc(50, 0, 91), V(91)), (MW, L(2)))], [T50]), finding="T8")
-case("T8_tuple_pattern_on_number", "a tuple pattern against a number: accepted by the real checker, the arm is never taken",
-     prog([], [match(NOW, (mt(ml(0), MW), L(7)), (ml(1), L(5)), (MW, L(3)))]), finding="T8")
-case("T9_constructor_without_its_payload", "B used without its payload as the scrutinee: accepted by the real checker; VM compile panic, WASM invalid module",
-     prog([], [red(con(50, 1))], [T50]), finding="T9")
+# ---- repaired findings T6, T7 (number scrutinee), T8, T9 (scrutinee): regression inputs, the real checker must REJECT them with a diagnostic ----
+case("fixed_T8_literal_pattern_on_sum", "repaired T8: a literal pattern against a sum value is a type error (it was accepted, the arm never taken)",
+     prog([], [match(con(50, 0), (ml(0), L(1)), (MW, L(2)))], [T50]))
+case("fixed_T6_match_arms_of_different_types", "repaired T6: arms of different types are a type error (the unification error was dropped: 2 3 3)",
+     prog([], [B('add', match(NOW, (ml(0), L(1)), (MW, ('tup', [L(2), L(3)]))), L(1))]))
+case("fixed_T7_match_on_number_not_exhaustive", "repaired T7 (number scrutinee): a match on a number without `_` is not exhaustive (it was accepted: VM ran the last arm, WASM played 0)",
+     prog([], [match(NOW, (ml(0), L(10)), (ml(1), L(20)))]))
+case("fixed_T8_binder_for_constructor_without_payload", "repaired T8: A(q) for a constructor without payload is a type error (VM compile panic, WASM no output word)",
+     prog([], [match(con(50, 0), (mc(50, 0, 91), V(91)), (MW, L(2)))], [T50]))
+case("fixed_T8_tuple_pattern_on_number", "repaired T8: a tuple pattern against a number is a type error",
+     prog([], [match(NOW, (mt(ml(0), MW), L(7)), (ml(1), L(5)), (MW, L(3)))]))
+case("fixed_T8_constructor_pattern_on_number", "repaired T8: a constructor pattern against a number is a type error",
+     prog([], [match(NOW, (mc(50, 0), L(7)), (MW, L(3)))], [T50]))
+case("fixed_T8_tuple_pattern_longer", "repaired T8: a tuple pattern wider than the tuple is a type error",
+     prog([], [match(('tup', [NOW, L(2)]), (mt(ml(0), ml(0), MW), L(1)), (MW, L(2)))]))
+case("fixed_T8_constructor_pattern_on_number_in_tuple", "repaired T8 (the bytecode verifier's witness): B((a, b, c)) in a tuple pattern over a column that is a number",
+     prog([], [match(('tup', [NOW, L(2)]), (mt(mc(51, 1, ('pt', [('pv', 91), ('pv', 92), ('pv', 93)])), ml(1)), V(91)), (MW, L(5)))],
+          [(51, [T(F, F, F), T(F, F, F)])]))
+case("fixed_T9_constructor_without_its_payload", "repaired T9 (scrutinee): B used without its payload as the scrutinee of a match is a type error (VM compile panic, WASM invalid module)",
+     prog([], [red(con(50, 1))], [T50]))
+# ---- what is left of T7 and T9 ----
+case("T7_match_on_tuple_not_exhaustive", "a match on a TUPLE without `_`: accepted by the real checker; VM runs the last arm, WASM plays 0 (reference: stuck E_NOMATCH)",
+     prog([], [match(('tup', [NOW, L(0)]), (mt(ml(0), ml(0)), L(1)), (mt(ml(1), MW), L(2)))]), finding="T7")
+case("T9_payload_constructor_as_function_value", "B (which carries a payload) let-bound as a function value: well typed for the real checker (float -> T); VM compile panic, WASM plays",
+     prog([], [('let', ('pv', 94), con(50, 1), L(1))], [T50]), finding="T9")
 
 if __name__ == "__main__":
-    mexe = sys.argv[1] if len(sys.argv) > 1 else os.path.join(vplib.CACHE, "ocaml", "lmmt_drv", "lmmt_drv")
-    iexe = os.path.join(vplib.CACHE, "target", "lang", "debug", "lmmm_run")
+    mexe, iexe, err = lmmt_part.build_sides()      # (with VERIF_REPO=<worktree>: the harness built against that worktree)
+    assert mexe is not None, err
+    if len(sys.argv) > 1: mexe = sys.argv[1]
     old = json.load(open(os.path.join(HERE, "cases.json")))
-    names = {c["name"] for c in CASES}
+    names = {c["name"] for c in CASES} | {"T8_literal_pattern_on_sum", "T6_match_arms_of_different_types", "T7_match_on_number_not_exhaustive",
+                                         "T8_binder_for_constructor_without_payload", "T8_tuple_pattern_on_number", "T9_constructor_without_its_payload"}
     old = [c for c in old if c["name"] not in names]
     progs = [c["prog"] for c in CASES]; rows = [c["rows"] for c in CASES]
     mres = lmmt_part.run_model(mexe, list(zip(progs, rows)))
